@@ -66,21 +66,7 @@ Proof.
   - rewrite IH. destruct (existsb (N.eqb (s_id x)) (ids sp)); reflexivity.
 Qed.
 
-Lemma nodup_snoc (l : list N) k : NoDup l -> ~ In k l -> NoDup (l ++ [k]).
-Proof.
-  induction l as [|a l IH]; simpl; intros H Hn.
-  - constructor; [intros [] | constructor].
-  - inversion H; subst. constructor.
-    + rewrite in_app_iff. simpl. intros [?|[?|[]]]; [contradiction|]. apply Hn. now left.
-    + apply IH; [assumption|]. intro; apply Hn; now right.
-Qed.
 
-Lemma existsb_eqb_in' p (l : list N) : existsb (N.eqb p) l = true <-> In p l.
-Proof.
-  rewrite existsb_exists. split.
-  - intros [x [Hx E]]. apply N.eqb_eq in E. now subst.
-  - intro H. exists p. split; [exact H | apply N.eqb_refl].
-Qed.
 
 Lemma nodup_sput x sp : NoDup (ids sp) -> NoDup (ids (sput x sp)).
 Proof.
@@ -427,39 +413,6 @@ Proof.
     + destruct (N.eqb_spec (s_id y) (s_id b)); [congruence | now rewrite IH].
 Qed.
 
-Lemma keys_aput {V} k (v : V) m :
-  map fst (aput k v m) = if existsb (N.eqb k) (map fst m) then map fst m else map fst m ++ [k].
-Proof.
-  induction m as [|[q w] m IH]; simpl; [reflexivity|].
-  destruct (N.eqb_spec k q); simpl; [reflexivity|]. rewrite IH.
-  destruct (existsb (N.eqb k) (map fst m)); reflexivity.
-Qed.
-Lemma nodup_aput {V} k (v : V) m : NoDup (map fst m) -> NoDup (map fst (aput k v m)).
-Proof.
-  intro H. rewrite keys_aput. destruct (existsb (N.eqb k) (map fst m)) eqn:E; [exact H|].
-  apply nodup_snoc; [exact H|]. intro Hin. apply existsb_eqb_in' in Hin. congruence.
-Qed.
-Lemma nodup_adel {V} k (m : list (N * V)) : NoDup (map fst m) -> NoDup (map fst (adel k m)).
-Proof.
-  unfold adel. induction m as [|[q w] m IH]; simpl; intro H; [constructor|].
-  inversion H; subst. destruct (N.eqb q k); simpl; [now apply IH|].
-  constructor; [|now apply IH]. intro Hin. apply in_map_iff in Hin as (z & Ez & Hz).
-  apply filter_In in Hz as [Hz _]. match goal with H : ~ In _ _ |- _ => apply H end.
-  rewrite <- Ez. now apply in_map.
-Qed.
-Lemma aget_in {V} k (v : V) m : aget k m = Some v -> In (k, v) m.
-Proof.
-  induction m as [|[q w] m IH]; simpl; [discriminate|].
-  destruct (N.eqb_spec k q); intro H; [inversion H; subst; now left | right; now apply IH].
-Qed.
-Lemma in_aget {V} k (v : V) m : NoDup (map fst m) -> In (k, v) m -> aget k m = Some v.
-Proof.
-  induction m as [|[q w] m IH]; simpl; intros Hn Hin; [contradiction|].
-  inversion Hn; subst. destruct Hin as [E|Hin].
-  - inversion E; subst. now rewrite N.eqb_refl.
-  - destruct (N.eqb_spec k q) as [->|]; [|now apply IH].
-    exfalso. match goal with H : ~ In _ _ |- _ => apply H end. change q with (fst (q, v)). now apply in_map.
-Qed.
 Lemma has_value_of_aget k r m : aget r m = Some k -> has_value k m = true.
 Proof.
   intro H. apply aget_in in H. unfold has_value. apply existsb_exists. exists (r, k). split; [assumption|].
